@@ -127,6 +127,18 @@ CLAIMED = {
         note="deductive kernels are listed in evidence when present (the reference/expected copies used by bed/vcf are proved under C01)",
         technique="contract-based: run-time contracts with statement-derived oracles on seeded random segment tables and files (bounded stand-in); deductive obligations where listed in evidence",
         design_ref="8 (C20)"),
+    "C15": dict(
+        category="other",
+        text="Run-time contracts (bounded stand-in) on the real center_all (one constant added to every bin, other columns "
+             "untouched, the chosen two-level estimator of the autosomal bins zero afterwards, for median/mean/biweight/mode x "
+             "by_chrom x skip_low x PAR genome, also when no chromosome is named like an autosome), expect_flat_log2 and "
+             "shift_xx (pointwise against the class table of C01), and -- statistical, bounded only -- guess_xx / sex report / "
+             "shift_xx on generated samples (sex x reference sex x +-Y x +-weights x noise sd 0.01..0.3 x 40..400 X bins).",
+        note="sex inference is a statistical claim over noise realisations (scipy's median test): no contract decides it, the "
+             "stand-in samples it; biweight/mode zero only to the estimators' own tolerance",
+        technique="contract-based: run-time contracts on seeded random tables (bounded stand-in); deductive obligations where "
+                  "listed in evidence",
+        design_ref="8 (C15)"),
     "C16": dict(
         category="other",
         text="Run-time contracts (bounded stand-in) on the real CopyNumArray.by_gene (every bin exactly once; each named gene "
